@@ -184,6 +184,82 @@ R.contract(
     ensures={"skip_rule": "iff(result, not fsmatch(schema_filter_set(self), operation.method, operation.path, operation.label, operation.definition.raw, operation.definition.resolved, operation.schema))"},
 )
 
+# ------------------------------------------------------------------------------------------------- FilterArguments.into: every --include-* / --exclude-* option becomes the filter it names
+FA = "schemathesis.cli.commands.run.filters:"
+
+
+def _recording_filter_set(it, env=None):
+    from pyvc.values import VObj
+
+    return VObj(it.resolve_class("spec:RecordingFilterSet"), {})
+
+
+def _rec(kind):
+    def call(it, obj, a, k):
+        it.ghost[kind] = it.ghost[kind] + [(tuple(a), tuple(sorted((n, v) for n, v in k.items() if v is not None)))]
+        return None
+
+    return call
+
+
+R.nominal_methods["spec:RecordingFilterSet"] = {"include": _rec("includes"), "exclude": _rec("excludes")}
+R.contract("schemathesis.filters:FilterSet", abstract_only=True, args={}, returns=_recording_filter_set, note="constructor; include()/exclude() calls are recorded (their meaning: FilterSet.match contract above)")
+R.contract(FA + "validate_unique_filter", args={"values": Opq("Any"), "arg_name": Str}, returns=NoneT, trusted=True, note="rejects duplicate values of one option (usage error)")
+R.contract(FA + "_filter_by_expression_to_func", args={"value": Opq("Any"), "arg_name": Str}, returns=lambda it, env: None if env["value"] is None else fresh_opaque(it, "ExprFilter"), trusted=True,
+           effects={"expr_funcs": "ghost('expr_funcs') + [(arg_name, result)]"}, note="--include-by / --exclude-by expression compiled to a predicate")
+Vals = ListOf(Str, [0, 1, 2])
+FIELDS = ("path", "method", "name", "tag", "operation_id")
+
+
+def _fa(vary):
+    fields = {}
+    for side in ("include", "exclude"):
+        for f in FIELDS:
+            fields[f"{side}_{f}"] = Vals if vary == (side, "values", f) else Const(())
+            fields[f"{side}_{f}_regex"] = OneOf(NoneT, Str) if vary == (side, "regex") else NoneT
+        fields[f"{side}_by"] = OneOf(NoneT, Str) if vary == ("by",) else NoneT
+    fields["exclude_deprecated"] = Bool if vary == ("by",) else Const(False)
+    return Obj(FA + "FilterArguments", **fields)
+
+
+def _expected(side):
+    order = ("name", "method", "path", "tag", "operation_id")
+    values = " + ".join(f"[((), ((\'{f}\', v),)) for v in self.{side}_{f}]" for f in order)
+    return values
+
+
+for side in ("include", "exclude"):
+    for f in FIELDS:
+        R.contract(
+            FA + "FilterArguments.into",
+            variant=f"{side}-{f}",
+            prop="C07",
+            args={"self": _fa((side, "values", f))},
+            ghost={"includes": [], "excludes": [], "expr_funcs": []},
+            raises=[],
+            ensures={
+                # each value of --include-X / --exclude-X becomes ONE filter on attribute X with that value, on the right side, and nothing else is added
+                "each_value_becomes_its_own_filter_on_its_attribute": f"ghost('{side}s') == [((), (('{f}', v),)) for v in self.{side}_{f}] and ghost('{'exclude' if side == 'include' else 'include'}s') == []",
+            },
+            bounded_note="up to 2 values per option",
+        )
+for side in ("include", "exclude"):
+    R.contract(
+        FA + "FilterArguments.into",
+        variant=f"{side}-regex",
+        prop="C07",
+        args={"self": _fa((side, "regex"))},
+        ghost={"includes": [], "excludes": [], "expr_funcs": []},
+        raises=[],
+        ensures={
+            # every *-regex option reaches the filter set under its own keyword with its own pattern (include: one combined filter; exclude: one filter per option)
+            "every_regex_option_is_passed_under_its_keyword": f"all(implies(getattr_(self, '{side}_' + f + '_regex') is not None and getattr_(self, '{side}_' + f + '_regex') != '', "
+                                                              f"any((f + '_regex', getattr_(self, '{side}_' + f + '_regex')) in call[1] for call in ghost('{side}s'))) for f in ('path', 'method', 'name', 'tag', 'operation_id'))",
+            "no_regex_keyword_is_invented": f"all(all(kw[0].endswith('_regex') and kw[1] == getattr_(self, '{side}_' + kw[0]) for kw in call[1]) for call in ghost('{side}s')) and ghost('{'exclude' if side == 'include' else 'include'}s') == []",
+        },
+    )
+R.spec_funcs["getattr_"] = lambda it, obj, name: obj.fields[name]
+
 LEVEL_TEXT = ("Deductive: the selection rule of the property is the machine-checked postcondition of the real FilterSet.match (loop invariant, sets of any size); "
               "matchers, attribute access, _should_skip (with an arbitrary stale shared cache), the GraphQL variant and the link rule carry their own contracts, "
               "all discharged by z3 from the current source on every run. Whole-document iteration is cross-checked by a bounded stand-in only.")
